@@ -187,6 +187,118 @@ def units(tier):
         u.bound_scalars = [('N', 1)]
         U.append(u)
     U.append(container_unit())
+    U += multi_units()
+    return U
+
+
+# ----------------------------------------------------------------------------- get_cycle_vector, general, several columns
+#
+# Same contract per column as the single-column units, over the column-indexed spec vocabulary of C12 (np.where as a function of the
+# column): ACCEPT2(c, k) <=> segment k of column c meets the criteria (and the mask is true on it), ACC2(c, k) = #accepted before k.
+ACC2 = z3.Function('ACC2', I, I, I)
+ACCEPT2 = z3.Function('ACCEPT2', I, I, B)
+MM = C12.M
+
+
+def _mk_general_multi(return_good, with_mask):
+    def mk(c):
+        ph, P = mat('phase2', N, MM)
+        s, q = z3.Ints('s q')
+        for ax in npshim.pi_axioms():
+            c.assume(ax)
+        c.assume(z3.And(N >= 1, MM >= 1, EDGE > 0))
+        c.assume(z3.ForAll([s, q], z3.And(0 <= P(s, q), P(s, q) <= 2 * PI), patterns=[P(s, q)]))
+        KW, WW, PP = npshim.register_pred_where(c, C12._Wd, z3.If(N >= 1, N - 1, 0), 'wraps')
+        c.ghost['KW'], c.ghost['WW'], c.ghost['PP'] = KW, WW, PP
+        kw = dict(return_good=return_good, phase_step=SReal(STEP), phase_edge=SReal(EDGE))
+        Mk = None
+        if with_mask:
+            mk_, Mk = vec('mask', N, 'b')
+            kw['mask'] = mk_
+        cq, kq, sm = z3.Ints('ac ak sm')
+
+        # ACCEPT2(c, k) <=> criteria(c, k) and mask true on the segment - the definition in skolemised form: the universally quantified
+        # parts follow from ACCEPT2, and a rejected segment comes with a witness of what fails (WITG: a non-increasing step, WITM: a masked sample)
+        WITG = z3.Function('WITG', I, I, I)
+        WITM = z3.Function('WITM', I, I, I)
+        gi = z3.Int('agi')
+        lo, hi = C12._Bc(cq, kq), C12._Bc(cq, kq + 1)
+        rng_ = z3.And(0 <= cq, cq < MM, 0 <= kq, kq <= KW(cq))
+        pos, neg = [], []
+        if return_good:
+            pos.append(z3.ForAll([gi], z3.Implies(z3.And(lo <= gi, gi < hi - 1), P(gi + 1, cq) > P(gi, cq))))
+            pos.append(z3.And(P(lo, cq) >= 0, P(lo, cq) <= EDGE))
+            pos.append(z3.And(P(hi - 1, cq) <= 2 * PI, P(hi - 1, cq) >= 2 * PI - EDGE))
+            wg = WITG(cq, kq)
+            neg.append(z3.And(lo <= wg, wg < hi - 1, P(wg + 1, cq) <= P(wg, cq)))
+            neg.append(z3.Not(z3.And(P(lo, cq) >= 0, P(lo, cq) <= EDGE)))
+            neg.append(z3.Not(z3.And(P(hi - 1, cq) <= 2 * PI, P(hi - 1, cq) >= 2 * PI - EDGE)))
+        if with_mask:
+            pos.append(z3.ForAll([sm], z3.Implies(z3.And(lo <= sm, sm < hi), Mk(sm))))
+            wm_ = WITM(cq, kq)
+            neg.append(z3.And(lo <= wm_, wm_ < hi, z3.Not(Mk(wm_))))
+        c.assume(z3.ForAll([cq, kq], z3.Implies(z3.And(rng_, ACCEPT2(cq, kq)), z3.And(*pos) if pos else z3.BoolVal(True)), patterns=[ACCEPT2(cq, kq)]))
+        c.assume(z3.ForAll([cq, kq], z3.Implies(z3.And(rng_, z3.Not(ACCEPT2(cq, kq))), z3.Or(*neg) if neg else z3.BoolVal(False)), patterns=[ACCEPT2(cq, kq)]))
+        c.assume(z3.ForAll([cq], ACC2(cq, 0) == 0, patterns=[ACC2(cq, 0)]))
+        c.assume(z3.ForAll([cq, kq], z3.Implies(kq >= 0, ACC2(cq, kq + 1) == ACC2(cq, kq) + z3.If(ACCEPT2(cq, kq), 1, 0)), patterns=[ACC2(cq, kq + 1)]))
+        return (ph,), kw
+    return mk
+
+
+def _lab2(c_, k):
+    return z3.If(ACCEPT2(c_, k), ACC2(c_, k), z3.IntVal(-1))
+
+
+def _outer_general():
+    cq, sq, kq = z3.Int('oc'), z3.Int('os'), z3.Int('ok')
+    KWf = lambda: core.C().ghost['KW']
+    return [
+        ('shape', lambda e: and_(SBool(e.cycles.shape_e[0] == N), SBool(e.cycles.shape_e[1] == MM), SBool(e.phase.shape_e[0] == N), SBool(e.phase.shape_e[1] == MM))),
+        ('iirange', lambda e: and_(0 <= e.ii, e.ii <= e.phase.shape[1])),
+        ('done-columns:segment-labelled-iff-criteria-and-mask', lambda e: SBool(z3.ForAll([cq, kq, sq], z3.Implies(
+            z3.And(0 <= cq, cq < lift(e.ii), KWf()(cq) >= 1, 0 <= kq, kq <= KWf()(cq), C12._Bc(cq, kq) <= sq, sq < C12._Bc(cq, kq + 1)), e.cycles.elem(sq, cq) == _lab2(cq, kq))))),
+        ('done-columns:no-wrap-no-cycles', lambda e: SBool(z3.ForAll([cq, sq], z3.Implies(z3.And(0 <= cq, cq < lift(e.ii), KWf()(cq) == 0, 0 <= sq, sq < N), e.cycles.elem(sq, cq) == -1)))),
+        ('later-columns-untouched', lambda e: SBool(z3.ForAll([cq, sq], z3.Implies(z3.And(lift(e.ii) <= cq, cq < MM, 0 <= sq, sq < N), e.cycles.elem(sq, cq) == -1)))),
+    ]
+
+
+def _inner_general_multi():
+    cq, sq, kq = z3.Int('fc'), z3.Int('fs'), z3.Int('fk')
+    lab = lambda e, s: e.cycles.elem(s, lift(e.ii))
+    KWi = lambda e: core.C().ghost['KW'](lift(e.ii))
+    return [
+        ('count', lambda e: SBool(lift(e.count) == ACC2(lift(e.ii), lift(e.jj)))),
+        ('jjrange', lambda e: and_(0 <= e.jj, e.jj <= e.inds.shape[0] - 1)),
+        ('nbounds', lambda e: SBool(e.inds.shape_e[0] == KWi(e) + 2)),
+        ('bounds', lambda e: SBool(z3.ForAll([kq], z3.Implies(z3.And(0 <= kq, kq <= KWi(e) + 1), e.inds.elem(kq) == C12._Bc(lift(e.ii), kq))))),
+        ('done', lambda e: SBool(z3.ForAll([kq, sq], z3.Implies(z3.And(0 <= kq, kq < lift(e.jj), C12._Bc(lift(e.ii), kq) <= sq, sq < C12._Bc(lift(e.ii), kq + 1)),
+                                                                  lab(e, sq) == _lab2(lift(e.ii), kq))))),
+        ('rest', lambda e: SBool(z3.ForAll([sq], z3.Implies(z3.And(C12._Bc(lift(e.ii), lift(e.jj)) <= sq, sq < N), lab(e, sq) == -1)))),
+        ('other-columns-unchanged', lambda e: SBool(z3.ForAll([cq, sq], z3.Implies(z3.And(0 <= cq, cq < MM, cq != lift(e.ii), 0 <= sq, sq < N),
+                                                                               e.cycles.elem(sq, cq) == e.pre.cycles.elem(sq, cq))))),
+        ('shape', lambda e: and_(SBool(e.cycles.shape_e[0] == N), SBool(e.cycles.shape_e[1] == MM))),
+    ]
+
+
+def _post_general_multi(c, a, kw, r):
+    KW = c.ghost['KW']
+    c0, k0, s0 = z3.Ints('c0 k0 s0')
+    c.oblige('post:shape', z3.And(r.shape_e[0] == N, r.shape_e[1] == MM), 'post')
+    inr = z3.And(0 <= c0, c0 < MM)
+    c.oblige('post:segment-labelled-iff-criteria-and-mask', z3.Implies(z3.And(inr, KW(c0) >= 1, 0 <= k0, k0 <= KW(c0), C12._Bc(c0, k0) <= s0, s0 < C12._Bc(c0, k0 + 1)),
+                                                                        r.elem(s0, c0) == _lab2(c0, k0)), 'post')
+    c.oblige('post:no-wrap-no-cycles', z3.Implies(z3.And(inr, KW(c0) == 0, 0 <= s0, s0 < N), r.elem(s0, c0) == -1), 'post')
+
+
+def multi_units():
+    import emd.cycles as EC
+    U = []
+    for rg, wm in ((True, False), (True, True), (False, True)):
+        u = Unit('get_cycle_vector[return_good=%s,mask=%s,multi-column]' % (rg, 'given' if wm else 'None'), 'emd/cycles.py', 'get_cycle_vector',
+                 _mk_general_multi(rg, wm), _post_general_multi, loops={0: {'inv': _outer_general()}, 1: {'inv': _inner_general_multi()}}, module=EC,
+                 ns={'is_good': is_good_stub},
+                 inline=[('emd/support.py', 'ensure_2d', {}), ('emd/support.py', 'ensure_equal_dims', {})])
+        U.append(u)
     return U
 
 
@@ -327,12 +439,17 @@ def replay(w):
         if w.get('mask') is not None:
             kw['mask'] = np.array(w['mask'], dtype=bool)
         try:
-            out = EC.get_cycle_vector(ph, **kw)[:, 0]
+            out2 = EC.get_cycle_vector(ph, **kw)
         except Exception as ex:
             return True, 'get_cycle_vector(%s, %s) raised %s: %s' % (np.round(ph, 3).tolist(), {k: v for k, v in kw.items() if k != 'mask'}, type(ex).__name__, ex)
-        exp = ref_labels(ph, w['phase_step'], w['phase_edge'], w['return_good'], kw.get('mask'))
-        if out.tolist() != exp.tolist():
-            return True, 'labels %s, criteria give %s (phase %s mask %s)' % (out.tolist(), exp.tolist(), np.round(ph, 3).tolist(), w.get('mask'))
+        cols = ph.reshape(len(ph), -1)
+        if out2.shape != cols.shape:
+            return True, 'result shape %s for phase of shape %s' % (out2.shape, cols.shape)
+        for cc in range(cols.shape[1]):          # every column is labelled on its own
+            out = out2[:, cc]
+            exp = ref_labels(cols[:, cc], w['phase_step'], w['phase_edge'], w['return_good'], kw.get('mask'))
+            if out.tolist() != exp.tolist():
+                return True, 'column %d: labels %s, criteria give %s (phase %s mask %s)' % (cc, out.tolist(), exp.tolist(), np.round(cols[:, cc], 3).tolist(), w.get('mask'))
         return False, 'labels agree with the criteria'
     if w.get('kind') == 'container_flag':
         ph = np.array(w['phase'], dtype=float)
@@ -392,6 +509,21 @@ def refute(tier, seed, emit):
             ok, msg = replay(w)
             if ok:
                 emit.violation('is_good-iff-criteria', w, msg)
+        if emit.full:
+            return
+    # several columns: each column on its own (a good column next to a bad one, a wrap-free one, with and without a mask)
+    import itertools as _it
+    ml2 = 3 if tier == 'quick' else 4
+    emit.scope('every pair of columns of length %d over %s x return_good=True x masks {none, one False}: every column labelled as if alone' % (ml2, alpha), exhaustive=True)
+    cols = list(_it.product(alpha, repeat=ml2))
+    for ca, cb in _it.product(cols, repeat=2):
+        ph2 = np.array([ca, cb]).T
+        for mk in (None, [True] * (ml2 - 1) + [False]):
+            emit.case(('2col', ca, cb, mk is None), nontrivial=True, contract='get_cycle_vector')
+            w = {'kind': 'good_cycles', 'phase': ph2.tolist(), 'phase_step': step, 'phase_edge': np.pi / 2, 'return_good': True, 'mask': mk}
+            ok, msg = replay(w)
+            if ok:
+                emit.violation('good-iff-criteria-and-mask:multi-column', w, msg[:300])
         if emit.full:
             return
     r = rng(seed, 13)
